@@ -111,7 +111,7 @@ fn reader_side(case: &str, t: i32, shp: &[u8], shx: &[u8], n: usize, written: &[
 
 pub fn run(ctx: &Ctx, with_reader_side: bool) -> Report {
     let engine = if with_reader_side { "c04" } else { "c02" };
-    let n = ctx.pick(if with_reader_side { 80 } else { 130 }, if with_reader_side { 2000 } else { 4000 });
+    let n = ctx.pick(if with_reader_side { 250 } else { 300 }, if with_reader_side { 2000 } else { 4000 });
     let dir = format!("{}/files", ctx.out);
     std::fs::create_dir_all(&dir).expect("harness: mkdir");
     let models: Mutex<Vec<(usize, String)>> = Mutex::new(vec![]);
